@@ -38,14 +38,19 @@ def pool(cls):
         'IntervalProd': lambda: [odl.IntervalProd([0], [1]), odl.IntervalProd([0, 0], [1, 1]), odl.IntervalProd([0, 0, 0], [1, 1, 1]), odl.IntervalProd([0.0], [1.0]),
                                  odl.IntervalProd([-0.0], [1.0]), odl.IntervalProd([0, 0], [1, 2])],
         'Weighting': lambda: [W.Weighting('numpy', 2.0), W.Weighting('numpy', 2.0), W.Weighting('numpy', 1.0)],
-        'ConstWeighting': lambda: [W.ConstWeighting(2.0, impl='numpy'), W.ConstWeighting(2.0, impl='numpy'), W.ConstWeighting(3.0, impl='numpy'), W.ConstWeighting(2.0, impl='numpy', exponent=1.0)],
+        'ConstWeighting': lambda: [W.ConstWeighting(2.0, impl='numpy'), W.ConstWeighting(2.0, impl='numpy'), W.ConstWeighting(3.0, impl='numpy'), W.ConstWeighting(2.0, impl='numpy', exponent=1.0),
+                                   W.ConstWeighting(0.3, impl='numpy'), W.ConstWeighting(0.1 * 3, impl='numpy'), W.ConstWeighting(0.25, impl='numpy'), W.ConstWeighting(0.25 * (1 + 7e-6), impl='numpy'),
+                                   W.ConstWeighting(0.25 * (1 + 1.4e-5), impl='numpy')],
         'ArrayWeighting': lambda: [W.ArrayWeighting(arr, impl='numpy'), W.ArrayWeighting(arr, impl='numpy'), W.ArrayWeighting(arr2, impl='numpy')],
-        'NumpyTensorSpaceConstWeighting': lambda: [NT.NumpyTensorSpaceConstWeighting(2.0), NT.NumpyTensorSpaceConstWeighting(2.0), NT.NumpyTensorSpaceConstWeighting(3.0)],
+        'NumpyTensorSpaceConstWeighting': lambda: [NT.NumpyTensorSpaceConstWeighting(2.0), NT.NumpyTensorSpaceConstWeighting(2.0), NT.NumpyTensorSpaceConstWeighting(3.0),
+                                                   NT.NumpyTensorSpaceConstWeighting(0.3), NT.NumpyTensorSpaceConstWeighting(0.1 * 3), NT.NumpyTensorSpaceConstWeighting(0.25 * (1 + 7e-6)),
+                                                   NT.NumpyTensorSpaceConstWeighting(0.25), NT.NumpyTensorSpaceConstWeighting(0.25 * (1 + 1.4e-5))],
         'NumpyTensorSpaceArrayWeighting': lambda: [NT.NumpyTensorSpaceArrayWeighting(arr), NT.NumpyTensorSpaceArrayWeighting(arr), NT.NumpyTensorSpaceArrayWeighting(arr2)],
         'ProductSpaceConstWeighting': lambda: [PSm.ProductSpaceConstWeighting(2.0), PSm.ProductSpaceConstWeighting(2.0), PSm.ProductSpaceConstWeighting(3.0)],
         'ProductSpaceArrayWeighting': lambda: [PSm.ProductSpaceArrayWeighting(arr), PSm.ProductSpaceArrayWeighting(arr), PSm.ProductSpaceArrayWeighting(arr2)],
         'NumpyTensorSpace': lambda: [odl.rn(3), odl.rn(3), odl.rn((3, 1)), odl.rn(3, dtype='float32'), odl.rn(3, weighting=2.0), odl.rn(3, weighting=2.0),
-                                     odl.rn(2, weighting=arr), odl.rn(2, weighting=arr), odl.cn(3)],
+                                     odl.rn(2, weighting=arr), odl.rn(2, weighting=arr), odl.cn(3),
+                                     odl.rn(3, weighting=0.3), odl.rn(3, weighting=0.1 * 3), odl.rn(3, weighting=0.25), odl.rn(3, weighting=0.25 * (1 + 7e-6)), odl.rn(3, weighting=0.25 * (1 + 1.4e-5))],
         'ProductSpace': lambda: [odl.ProductSpace(odl.rn(2), odl.rn(3)), odl.ProductSpace(odl.rn(2), odl.rn(3)), odl.ProductSpace(odl.rn(2), 2), odl.ProductSpace(odl.rn(2), odl.rn(3), weighting=2.0),
                                  odl.ProductSpace(odl.rn(2))],
         'RectGrid': lambda: [odl.RectGrid([0.0, 1.0]), odl.RectGrid([-0.0, 1.0]), odl.RectGrid([0.0, 1.0], [2.0, 3.0]), odl.RectGrid([0.0, 2.0]), odl.RectGrid([0.0, 1.0]),
